@@ -20,7 +20,8 @@ def _run_batch(args):
     shutil.rmtree(bdir, ignore_errors=True)
     os.makedirs(bdir)
     sess = Session(bdir, reflink=opts.get("reflink", False), exact=opts.get("exact", False),
-                   total=opts.get("total", False), layout=opts.get("layout", False))
+                   total=opts.get("total", False), layout=opts.get("layout", False),
+                   relcache=opts.get("relcache", False) and (bid % 2 == 1))
     out = {"bid": bid, "programs": len(programs), "divs": [], "error": None}
     try:
         results, finals = [], []
